@@ -26,7 +26,7 @@ DECIDING = ["parse.outcome", "strict.reject", "backend_join"]
 FLOORS = {"quick": {"parse.outcome": 500000, "strict.reject": 300, "backend_join": 8000},
           "thorough": {"parse.outcome": 5 * 10**6, "strict.reject": 300, "backend_join": 15000}}
 REQUIRED_HOOKS = ["pendulum.parse"]
-TECHNIQUE = "exception-class monitor (contract with exceptional-exit handler) on pendulum.parse over enumerated edits of every valid form, backend-agreement log join, overflow-checked extension build as integer sanitizer"
+TECHNIQUE = "exception-class monitor (contract with exceptional-exit handler) on pendulum.parse over enumerated edits of every valid form, long digit runs before and after the decimal separator (up to 400 digits), backend-agreement log join, overflow-checked extension build as integer sanitizer"
 LEVEL_TEXT = ("every observed call of pendulum.parse is classified: supported type, ValueError, or anything else (violation, keyed by "
               "exception class and innermost pendulum frame); all single edits, truncations, sampled double edits and concatenations of "
               "~60 valid forms plus random/non-ASCII strings x option sets x three builds (release, pure Python, overflow-checked); "
@@ -211,6 +211,8 @@ def cases(M):
         yield {"k": "edits", "si": si, "double": 3000 if thorough else 400, "seed": r.randrange(1 << 30), "allopts": True}
     yield {"k": "concat", "n": (300000 if thorough else 30000) // M.nshards, "seed": r.randrange(1 << 30)}
     yield {"k": "random", "n": (2000000 if thorough else 150000) // M.nshards, "seed": r.randrange(1 << 30)}
+    if M.shard % 4 == 1:
+        yield {"k": "longfrac", "seed": 1000 + M.shard // 4}       # the same strings in every configuration (join)
     if M.shard == 0:
         yield {"k": "nonisostrict"}
         yield {"k": "huge"}
@@ -285,6 +287,24 @@ def run(M, c):
                     M.current = {"k": "one", "s": s, "o": oname}
                     out = call(M, s, oname, opts)
                     M.cls("huge", tmpl, oname, out)
+        return
+    if k == "longfrac":
+        # long digit runs AFTER the decimal separator (the integer positions are the business of "huge"): fractions of 10..400
+        # digits on every duration unit, on times and inside intervals - accumulated in fixed-width integers or floats they
+        # wrap or vanish; the backends must agree (join) and the overflow-checked build must not panic
+        r = random.Random(c["seed"])
+        for n in (10, 15, 18, 19, 20, 21, 22, 25, 30, 38, 39, 40, 64, 65, 100, 308, 309, 400):
+            M.progress()
+            for digs in ("5" + "0" * (n - 1), "25" + "0" * (n - 2), "9" * n, "".join(r.choice("0123456789") for _ in range(n)),
+                         "0" * (n - 1) + "1", "4" + "9" * (n - 1)):
+                for tmpl in ("PT0.%sS", "PT7,%sS", "P0.%sD", "PT1.%sH", "PT2,%sM", "P0.%sW", "P1Y2M3DT4H5M6.%sS", "10:11:12.%s", "T101112,%s",
+                             "2020-02-29T10:11:12.%s+01:00", "2020-02-29T10:11:12.%sZ", "20200229T101112.%s-0530", "2020-02-29 10:11:12.%s",
+                             "2020-01-01T00:00:00.%sZ/PT0.%sS", "PT0.%sH/2020-01-01T00:00:00Z", "2020-01-01T00:00:00Z/2020-01-01T00:00:01.%sZ"):
+                    s = tmpl % ((digs,) * tmpl.count("%s"))
+                    for oname, opts in OPTS[:4]:
+                        M.current = {"k": "one", "s": s, "o": oname}
+                        out = call(M, s, oname, opts)
+                        M.cls("longfrac", tmpl, n, oname, out)
         return
     if k == "nonisostrict":
         P = M.pendulum
